@@ -18,7 +18,7 @@ Exit codes: 0 = everything recognised, 3 = at least one failure (JSON still writ
 Structure of this file
   1. lexer               (lex)
   2. token cursor        (Cursor: at / accept / expect / ident / string / number / group)
-  3. expression parser   (parse_expr + show: canonical text of simple Rust expressions)
+  3. expression parser   (parse_expr: canonical text of simple Rust expressions)
   4. recognisers, one per template fragment, each quoting the generator fragment it matches
   5. top-level scan of the file, classification of keyword/struct, JSON output
 
@@ -31,6 +31,9 @@ Tolerated (behaviour-neutral) variation -- the shipped file was hand-cleaned aft
     `i` is unused; an unused `const TAG_LIST` dropped (if present it must list exactly the tags of
     the match arms, in order); braced vs. unbraced single-expression match arms and the `,` after
     a match arm; `let writer` vs `let mut writer`
+  * the order of the shorthand field initialisers in `Ok(Self { .. })` (no meaning in Rust); the
+    order of the variables inside `item_location: (..)` is not required to be the parse order
+    either, but it is semantic and therefore reported as extra[X]["parse_layout"]
 Everything else (callee names, integer types, tag strings, version constants, require_block vs
 require_keyword, loop vs if-let, required checks, stop words, end-tag check, statement order,
 location indices) is matched strictly.
@@ -45,7 +48,7 @@ Output: {"types": {..}, "extra": {..}, "failures": [..]}, written with indent=1,
      "writer_sig":   "indent" (block/keyword: own Writer) | "writer" (struct: parent's Writer) | "display" (enum)
      "writer":       the write commands of stringify in order, see rec_stringify / rec_tagged_group_writer;
                      for an enum the arms of Display::fmt as [{"variant", "tag"}]
-     "eq":           fields compared by PartialEq::eq, in order               (enum: null = derived)
+     "eq":           fields compared by PartialEq::eq, in order               (enum: null, it is derived)
      "new_args":     argument names of new(), in order                          (enum: null)
      "new_fields":   [[field, "arg"|"None"|"Vec::new"|"ItemList::default"], ..] initialisers of new()
      "new_defaults": {"start_offset", "end_offset", "item_location"} literals of new() as strings,
@@ -95,6 +98,7 @@ TOKEN_RE = re.compile(r'''
 ''', re.X | re.S)
 TUPLE_INDEX_RE = re.compile(r'[0-9]+')
 NUM_SUFFIX_RE = re.compile(r'(?:[iu](?:8|16|32|64|128|size)|f32|f64)$')
+INT_SUFFIX_RE = re.compile(r'[iu](?:8|16|32|64|128|size)$')
 
 OPEN = {'(': ')', '[': ']', '{': '}'}
 CLOSE = {')', ']', '}'}
@@ -115,10 +119,10 @@ class Tok:
         self.s = s
         self.line = line
         self.tc = False
-        if k == 'num' and not s.startswith(('0x', '0o', '0b')):
-            self.key = NUM_SUFFIX_RE.sub('', s).replace('_', '')
-        elif k == 'num':
-            self.key = re.sub(r'[iu](?:8|16|32|64|128|size)$', '', s).replace('_', '')
+        if k == 'num':
+            # 0x.. literals may end in hex digits that look like the float suffixes, e.g. 0x1f32
+            suffix = INT_SUFFIX_RE if s.startswith(('0x', '0o', '0b')) else NUM_SUFFIX_RE
+            self.key = suffix.sub('', s).replace('_', '')
         else:
             self.key = s
 
@@ -138,7 +142,6 @@ def lex(text):
         # a number directly after a single `.` is a tuple index: `x.0.1` is `x` `.` `0` `.` `1`
         after_dot = (len(raw) >= 1 and raw[-1].k == 'p' and raw[-1].s == '.'
                      and not (len(raw) >= 2 and raw[-2].k == 'p' and raw[-2].s == '.'))
-        m = None
         if after_dot:
             m = TUPLE_INDEX_RE.match(text, pos)
             if m:
